@@ -143,7 +143,7 @@ Lemma gen_add_update_some nft ds acts s ty ign :
   gen_add_update nft ds acts (Some s) ty ign = add_update nft ds ign ty s acts.
 Proof.
   unfold gen_add_update, add_update. cbv zeta.
-  destruct ty; cbn [atype_is_delete];
+  destruct ty; cbn [atype_is_delete atype_eqb negb];
     match goal with
     | |- context [add_update_loop nft ds ign ?ty ?vis (s_nodes s) acts] =>
         rewrite (loop_fold_ext _ (au_body nft ds ign ty vis)) by (intros a e; reflexivity);
